@@ -100,6 +100,11 @@ def run(tier="quick", seed=0, jobs=16):
             res["disagreements"].append({"property": "C05", "case": mc, "points": pts, "finding_key": None, "_multi": True,
                                          "what": [{"what": "multi-stage OCP: the NLP objective is not the sum of the stage objectives and the master's terms",
                                                    "rockit_vs_model": bad[:3]}]})
+        orb = r.get("objective_readback")
+        if not bad and orb and all(abs(v) < engine.BIG for v in orb) and not engine.close(orb[0], orb[1], scale=abs(orb[1])):
+            res["disagreements"].append({"property": "C05", "case": mc, "points": pts, "finding_key": None, "_multi": True,
+                                         "what": [{"what": "multi-stage OCP: sol.value(ocp.objective) is not the cost the solver minimised",
+                                                   "sol.value(ocp.objective)": orb[0], "opti.f at the solution": orb[1]}]})
     res["evaluations"] += len(cps)
     res["distinct_nontrivial"] += nm
     res["extra"]["multi_stage_objectives_compared"] = nm
